@@ -35,10 +35,10 @@ def fluor_groups(sc, tier, prefix, no_safety=True):
                     backends=("cvc5",), timeout=900, functions=["CS_FluorLine"], native_harness="harness/h_fluor.c",
                     stubs_used=used_l, no_safety=no_safety, export_local=True, expect_canaries=["another shell"],
                     restrict_retry="V_RESTRICT_LEAVES"))
-    # the lines of each shell, enumerated with a constant line in chunks of 16 macro values (the chunks cover the
+    # the lines of each shell, enumerated with a constant line in chunks of 8 macro values (the chunks cover the
     # name-derived block exactly; the Siegbahn groups of a shell ride on its first chunk)
     ctx = common.prepare(sc)
-    CH = 16
+    CH = 8    # 13 lines per query take ~130 s, 16 do not finish in 900 s: the cost grows faster than linearly
     for cls, extra in (("K", ["-DENUM_EXTRA1=KA_LINE", "-DENUM_EXTRA2=KB_LINE"]), ("L1", []), ("L2", []), ("L3", ["-DENUM_EXTRA1=LA_LINE"])):
         vals = sorted(v for n, v in ctx["mac"].lines_all if v < 0 and __import__("re").match(r"^%s(?![0-9])" % cls, n))
         first = True
